@@ -12,8 +12,8 @@
    [roundtrip m] below is the property for one type, spelled out: parsing the encoded body yields the original
    value, and re-encoding what was parsed yields identical bytes. *)
 From JT.Base Require Import Prelude Fmt.
-From JT.Model Require Import Msg_simple.
-From JT.Proofs Require Import Msg_simple_proofs Msg_helpers_proofs.
+From JT.Model Require Import Msg_simple Msg_text Params Msg_all.
+From JT.Proofs Require Import Msg_simple_proofs Msg_helpers_proofs Msg_text_proofs Msg_params_proofs Msg_all_proofs.
 
 Notation roundtrip m :=
   (forall v, m_wf m v = true ->
@@ -102,6 +102,33 @@ Theorem C07_9208_required_roundtrip : forall d, roundtrip (m_9208_required d).
 Proof. exact (fun d => law_of_ok _ (m_9208_required_ok d)). Qed.
 Print Assumptions C07_9208_required_roundtrip.
 
+(* ---- text converted by the external GBK codec: for EVERY pair of functions u2g (UTF82GBK) / g2u (GBK2UTF8)
+   with g2u (u2g s) = s on the text domain gdom (validated against golang.org/x/text by the harness) *)
+(* T0x0100, all three layouts: header version 3 -> 2019; 1 or 2 -> 2013 when the body is longer than 36 bytes,
+   else 2011 (whose domain therefore has plates of at most 11 GBK bytes); Encode chooses by the Version field *)
+Theorem C07_0100_roundtrip : forall u2g g2u gdom, codec_ok u2g g2u gdom ->
+  forall hver, roundtrip (m_0100 u2g g2u gdom hver).
+Proof. exact (fun u2g g2u gdom Hc hver => law_of_ok _ (m_0100_ok u2g g2u gdom Hc hver)). Qed.
+Print Assumptions C07_0100_roundtrip.
+
+(* ---- terminal parameters: every id of the table (each of the 83 typed ids in its own field, the caseless ids
+   0x018 0x019 0x021 and 0x02A 0x02B and any other id as unknown content), any subset, count consistent *)
+Theorem C07_params : forall u2g g2u gdom, codec_ok u2g g2u gdom ->
+  forall count p, params_wf u2g gdom count p = true ->
+  params_parse g2u count (params_encode u2g p) = Ok p.
+Proof. exact params_roundtrip. Qed.
+Print Assumptions C07_params.
+Theorem C07_8103_roundtrip : forall u2g g2u gdom, codec_ok u2g g2u gdom -> roundtrip (m_8103 u2g g2u gdom).
+Proof. exact (fun u2g g2u gdom Hc => law_of_ok _ (m_8103_ok u2g g2u gdom Hc)). Qed.
+Print Assumptions C07_8103_roundtrip.
+
+(* ---- whatever model the oracle's registry returns for (message id, header version, dialect) - the models the
+   real code is compared with on every run - satisfies the law *)
+Theorem C07_registry : forall u2g g2u gdom, codec_ok u2g g2u gdom ->
+  forall id ver d m, msg_all u2g g2u gdom id ver d = Some m -> roundtrip m.
+Proof. exact (fun u2g g2u gdom Hc id ver d m H => law_of_ok _ (msg_all_ok u2g g2u gdom Hc id ver d m H)). Qed.
+Print Assumptions C07_registry.
+
 (* ---- the helpers *)
 (* utils.Time2BCD / BCD2Time: every "20YY-MM-DD hh:mm:ss" of decimal digits <-> six bytes of decimal nibbles *)
 Theorem C07_bcd_time : forall t, time_ok t = true ->
@@ -148,4 +175,15 @@ Example C07_examples :
                        VB [120]; VB [1; 2; 3]]) = true /\
   m_wf (m_1210 2) (VL [VB []; VL [VB [65]; VB [50;48;50;52;45;48;49;45;51;49;32;50;51;58;53;57;58;53;57]; VN 1; VN 2; VB []; VN 2];
                        VB [120]; VN 0; VN 2; VL [VL [VN 0; VB []; VN 5]; VL [VN 2; VB [97; 0]; VN 6]]]) = true.
+Proof. repeat split; vm_compute; reflexivity. Qed.
+
+(* a parameter set inside the domain (identity codec): heartbeat interval, an APN, one unknown id *)
+Example C07_params_example :
+  let id_ := fun s : list N => s in
+  let p := VL (set_field param_fields (set_field param_fields fresh_fields 1 (VL [VN 1; VN 4; VN 60]))
+                 16 (VL [VN 16; VN 3; VB [97; 98; 99]]) ++ [VL [VL [VN 42; VN 2; VB [1; 2]]]]) in
+  params_wf id_ (fun _ => true) 3 p = true /\
+  params_encode id_ p = [0;0;0;1;4;0;0;0;60; 0;0;0;16;3;97;98;99; 0;0;0;42;2;1;2] /\
+  m_wf (m_0100 id_ id_ (fun _ => true) 2)
+    (VL [VN 31; VN 115; VB [49]; VB [65; 66]; VB [55]; VN 1; VB [65; 49; 50; 51]; VN 1]) = true.
 Proof. repeat split; vm_compute; reflexivity. Qed.
